@@ -58,9 +58,12 @@ fn record(cs: u64, big: bool) -> Option<Recording> {
     let mut trx = rep.trx();
     let mut first = true;
     let mut actions = 0;
+    let mut reopens = 0;
+    let mut delivered: Vec<usize> = vec![];
     for st in &steps {
         match st {
             Step::Add(batch) => {
+                delivered.extend(batch.iter().copied());
                 let wires: Vec<WireCmd> = batch.iter().map(|&v| wire(&model.dag, v)).collect();
                 if rep.add(&mut trx, &wires).is_err() {
                     verif::take();
@@ -84,6 +87,32 @@ fn record(cs: u64, big: bool) -> Option<Recording> {
                 }
                 snaps.push(snap(&mut rep).ok()?);
                 verif::mark(snaps.len() as u64 - 1);
+                if rng.chance(1, 2) {
+                    // Process restart: reopen the graph file with a fresh manager. The next append
+                    // is then the first one after `open` (which re-derives its allocation state).
+                    drop(trx);
+                    drop(rep);
+                    rep = FileReplica::new_file(dir.path(), &init);
+                    reopens += 1;
+                    trx = rep.trx();
+                    if rng.chance(2, 3) && !delivered.is_empty() {
+                        // a sync that brings only commands we already hold: a commit that appends
+                        // nothing but the head-set record
+                        let k = rng.urange(1, 3);
+                        let dups: Vec<WireCmd> = (0..k).map(|_| wire(&model.dag, *rng.pick(&delivered))).collect();
+                        if rep.add(&mut trx, &dups).is_err() {
+                            verif::take();
+                            return None;
+                        }
+                        let t = std::mem::replace(&mut trx, rep.trx());
+                        if rep.commit(t).is_err() {
+                            verif::take();
+                            return None;
+                        }
+                        snaps.push(snap(&mut rep).ok()?);
+                        verif::mark(snaps.len() as u64 - 1);
+                    }
+                }
                 if rng.chance(1, 4) {
                     // an action (collapses heads, writes merge segments, commits)
                     let act = ActionScript { dump: false, observe: vec![], publish: vec![PubSpec { prio: Some(Prio::Basic(1)), script: Script { tag: 0x1500_0000 + actions, quiet: false, ops: vec![Op::Put { n: 0, k: vec![b"act".to_vec(), vec![actions as u8]], v: vec![9; 1 + (actions as usize % 40)] }] } }], fail_after: None, nonce: cs ^ actions as u64 };
@@ -106,7 +135,7 @@ fn record(cs: u64, big: bool) -> Option<Recording> {
     let writes = events.iter().filter(|e| matches!(e, IoEvent::Write { .. })).count();
     let barriers = events.iter().filter(|e| matches!(e, IoEvent::Fdatasync | IoEvent::Fsync)).count();
     let max_end = events.iter().filter_map(|e| if let IoEvent::Write { offset, data } = e { Some(*offset + data.len() as i64) } else { None }).max().unwrap_or(0);
-    let summary = json!({"case_seed": cs, "commands": model.len(), "commits": snaps.len(), "actions": actions, "io_events": events.len(), "writes": writes, "barriers": barriers, "max_write_end": max_end});
+    let summary = json!({"case_seed": cs, "commands": model.len(), "commits": snaps.len(), "actions": actions, "reopens": reopens, "io_events": events.len(), "writes": writes, "barriers": barriers, "max_write_end": max_end});
     drop(rep);
     Some(Recording { events, snaps, init, file_name, summary })
 }
@@ -384,7 +413,7 @@ fn main() {
         }
         finish_all(&args, vec![m]);
     }
-    let n_small = args.n(3, 30);
+    let n_small = args.n(6, 40);
     let n_big = args.n(0, 3);
     for w in 0..(n_small + n_big) {
         let big = w >= n_small;
